@@ -8,6 +8,11 @@ fed one by one through `RTCDtlsTransport._recv_next`; everything the stack does 
 that RTCP changes, escaping exceptions, wall time).  The same datagram list goes through the compiled Lean model
 `Model/RtpDispatch.lean` (driver `rtpdispatch run …`), whose per-datagram trace must be identical.
 
+Counter origins (harness/c05origins.py): the sender's RTX sequence number starts at `case["rtx0"]` (default 7), installed through the
+library's `random_sequence_number` / `random16` seams, and the model runs from the same origin (`rtpdispatch runo`); ops may carry a
+repeat count (`[hex, forging, n]`: long histories of well-formed feedback).  `feedback-history` (harness/c05history.py) is the same idea
+on a sender started with `send()`, observed on the wire only.
+
 Outside: the decoder thread body (`decoder_worker` is replaced by a draining stub: PyAV is not under test), the
 remote bitrate estimator's value (REMB feedback is filtered from the trace; its crash-freedom is still observed),
 RTCP RR timers.
@@ -19,6 +24,7 @@ import struct
 import time
 
 from harness.check import Component
+from harness import c05origins as O
 
 DRIVERS = ["RtpDispatch"]
 LEAN_TARGETS = ["Aiortc.Props.C05Rtp"]
@@ -28,16 +34,24 @@ RULE = ("RTP/RTCP: one real RTCDtlsTransport + video receiver (VP8/H264/RTX) + a
         "every field boundary, bit flips, length fields 0/+-1/max, header extensions of every id x length in both forms, RTX with 0/1/2-byte "
         "payloads on known/unknown SSRCs and apt, STAP-A/FU-A/VP8 descriptors cut at every byte, compound RTCP with nonsense counts, "
         "REMB with wrong counts, NACK floods, sequence jumps of 1/99/100/127/128/32767/32768/65535), then valid media + SR + NACK; "
+        "the counters under the receive path start next to their wrap points: the sender's RTX sequence number (drawn by the library from "
+        "random_sequence_number(): replaced by 65535-k, 32767, 32768, 0 ... - harness/c05origins.py), the peer's sequence numbers, timestamps and "
+        "abs-send-time (65535-k, 2^32-1, 2^31-3000, 2^24-1-k); long histories: 300-800 (quick) / 3000-12000 (thorough) well-formed feedback "
+        "datagrams (NACK, PLI, FIR, RR, SR, REMB, each repeated up to 150 times) per case, in the thorough tier also > 65536 retransmissions from an "
+        "origin < 32768; feedback-history: a sender started with send() on a track of pre-encoded packets, origins shifted through the random16 / "
+        "random32 / random_sequence_number seams or not at all (then 67 NACK floods = once around the 16-bit space), observed on the wire only; "
         "distinct = distinct datagram list; nontrivial = at least one hostile datagram reached a receiver, a sender or a parser error")
 
 ASSUMPTIONS = [
-    "RTP part: theorems quantify over transport states whose receivers satisfy the component invariants (`TransportInv`: jitter buffer "
-    "`Inv` of C10, stream statistics `GoodRecv` of C18, 16-bit NACK `max_seq`, timestamp mapper `_last` set with `_origin`); "
-    "`fresh_receiver_inv` + `still_alive` show every state reachable from construction by datagrams satisfies them",
+    "RTP part: theorems quantify over transport states whose receivers and senders satisfy the component invariants (`TransportInv`: jitter buffer "
+    "`Inv` of C10, stream statistics `GoodRecv` of C18, 16-bit NACK `max_seq`, timestamp mapper `_last` set with `_origin`; `SenderInv`: the RTX "
+    "sequence number is a 16-bit number); `fresh_receiver_inv` / `fresh_sender_inv` + `still_alive` show every state reachable from construction by "
+    "datagrams satisfies them, from every origin and after every length of history (`rtx_counter_every_origin`)",
     "RTP part: the datagram is a string of bytes (`IsBytes`), and what SRTP `unprotect` returns is one too",
     "RTP part: `RemoteBitrateEstimator.add` + `pack_remb_fci` return (input `rbeOut = ok _` of the model; C15 covers the estimator up to float helpers)",
     "RTP part: sending (`_send_rtp` -> SRTP protect -> ICE send) does not raise: the transport is connected and the ICE transport is up (a `ConnectionError` "
-    "from a broken network path is a disconnect, not a datagram-induced failure); serialising NACK / PLI / retransmitted packets is C07's domain",
+    "from a broken network path is a disconnect, not a datagram-induced failure); serialising NACK / PLI packets is C07's domain; of a retransmitted "
+    "packet the model serialises the RTX sequence number (the one field `_retransmit` computes), the other fields were serialised by `_run_rtp` before",
     "RTP part: a receiver object is not also registered as a sender (C12's assumption)",
 ]
 TRUSTED_EXTRA = [
@@ -45,7 +59,10 @@ TRUSTED_EXTRA = [
     "RTP part: the decoder thread body (PyAV) is replaced by a draining stub in the harness; the model ends at the decoder queue `put`",
     "RTP part: REMB feedback and the periodic receiver reports are filtered out of the compared trace (wall-clock dependent); their crash-freedom is still observed by the oracle",
     "RTP part: `RTCRtpSender` state is installed through its private attributes exactly as `send()` / `_run_rtp` would set it (no encoder thread, no track)",
-    "RTP part: per-datagram cost is measured as CPU time of the receiving thread with the garbage collector off, a datagram counts as slow only if it is above 50 ms in three runs",
+    "RTP part: per-datagram cost is measured as CPU time of the receiving thread with the garbage collector off, a datagram counts as slow only if it is above 50 ms in three runs; "
+    "a datagram that uses 1 s of CPU is interrupted and reported as a hang",
+    "RTP part: counter origins are installed through the library's own random16 / random32 / random_sequence_number seams (attribute lookup by name only as a fall-back); "
+    "a seam or attribute that no longer exists is not shifted",
 ]
 
 # ------------------------------------------------------------------------------------------------
@@ -71,6 +88,8 @@ HISTORY = [65530, 65531, 65532, 65533, 65534, 65535, 0, 1, 2, 3]     # sender hi
 HISTORY_LEN = 20                                                     # payload length of history packets
 SLOW_MS = 50.0
 SENDER_LSR = 0x11112222
+AST_STEP = 2731                                                      # abs-send-time units per video packet (~10 ms)
+RTX0 = 7                                                             # RTX sequence number origin of the default world
 
 
 def hx(b: bytes) -> str:
@@ -82,6 +101,8 @@ def unhx(s: str) -> bytes:
 
 
 def _exc_tag(exc) -> str:
+    if isinstance(exc, O.Hang):
+        return "hang"
     if isinstance(exc, ValueError):
         return "ValueError"
     if isinstance(exc, struct.error):
@@ -155,9 +176,10 @@ def _drain_worker(loop, input_q, output_q):
 
 
 class World:
-    """The real objects, wired together."""
+    """The real objects, wired together.  `rtx0`: where the sender's RTX sequence number starts (the library draws it
+    from `random_sequence_number()`; see harness/c05origins.py)."""
 
-    def __init__(self):
+    def __init__(self, rtx0=RTX0):
         import asyncio
         import aiortc.rtcrtpreceiver as rr
         from aiortc import rtp
@@ -204,7 +226,8 @@ class World:
                 codecs=[RTCRtpCodecParameters(mimeType="audio/PCMU", clockRate=8000, channels=1, payloadType=PT_PCMU)],
                 encodings=[RTCRtpDecodingParameters(ssrc=A_SSRC, payloadType=PT_PCMU)],
                 headerExtensions=exts, muxId="1"))
-            self.sender = RTCRtpSender("video", self.dtls)
+            with O.shifted({"seqno": rtx0, "r16": rtx0}):
+                self.sender = RTCRtpSender("video", self.dtls)
         self.loop.run_until_complete(setup())
         rr.decoder_worker = self._saved_worker
 
@@ -213,7 +236,9 @@ class World:
         s._ssrc, s._rtx_ssrc = S_SSRC, S_RTX_SSRC
         self.dtls._register_rtp_sender(s, RTCRtpSendParameters(rtcp=RTCRtcpParameters(cname="x", ssrc=S_SSRC)))
         s._RTCRtpSender__rtx_payload_type = PT_RTX_VP8
-        s._RTCRtpSender__rtx_sequence_number = 7
+        name = O.locate(s, ("rtx", "seq"), "_RTCRtpSender__rtx_sequence_number")
+        if name is not None and getattr(s, name) != rtx0:
+            setattr(s, name, rtx0)                          # no seam (any more): as the constructor stores it
         s._RTCRtpSender__packet_count = 10
         s._RTCRtpSender__lsr = SENDER_LSR            # as after the sender's first SR: the RTT branch of RR handling is live
         s._RTCRtpSender__lsr_time = time.time()
@@ -279,7 +304,8 @@ class World:
         t0 = time.thread_time()
         exc = None
         try:
-            self.loop.run_until_complete(self.dtls._recv_next())
+            with O.cpu_limit():
+                self.loop.run_until_complete(self.dtls._recv_next())
         except BaseException as e:  # noqa: BLE001 - every escaping exception is the observation
             exc = e
         ms = (time.thread_time() - t0) * 1000.0
@@ -380,9 +406,10 @@ def rtcp_remb(ssrc, n, exp, mantissa, ssrcs, media=0):
 class Media:
     """Deterministic valid video stream (VP8 on V_SSRC) and audio stream."""
 
-    def __init__(self, seq=65500, ts=4294960000, aseq=10, ats=1000):
+    def __init__(self, seq=65500, ts=4294960000, aseq=10, ats=1000, ast=None):
         self.seq, self.ts, self.pic = seq, ts, 5
         self.aseq, self.ats = aseq, ats
+        self.ast = ast          # abs-send-time (24 bit, 6.18 fixed point) of the next video packet; None: no extension
         self.n = 0
 
     def frame(self, h264=False):
@@ -403,7 +430,13 @@ class Media:
             exp = body
             pt = PT_VP8
         for i, pl in enumerate(pls):
-            out.append(rtp_hdr(pt, self.seq, self.ts, V_SSRC, marker=1 if i == len(pls) - 1 else 0) + pl)
+            marker = 1 if i == len(pls) - 1 else 0
+            if self.ast is None:
+                out.append(rtp_hdr(pt, self.seq, self.ts, V_SSRC, marker=marker) + pl)
+            else:
+                ext = ext_block(0xBEDE, one_byte_ext([(EXT_IDS["abs_send_time"], self.ast.to_bytes(3, "big"))]))
+                out.append(rtp_hdr(pt, self.seq, self.ts, V_SSRC, marker=marker, x=1) + ext + pl)
+                self.ast = (self.ast + AST_STEP) % (1 << 24)
             self.seq = (self.seq + 1) % 65536
         ts = self.ts
         self.ts = (self.ts + 3000) % (1 << 32)
@@ -418,7 +451,7 @@ class Media:
 
 def expand(case):
     """case -> list of (kind, datagram, meta).  kind: 'pre' | 'hostile' | 'post'."""
-    m = Media(*case.get("start", [65500, 4294960000]))
+    m = Media(*case.get("start", [65500, 4294960000]), ast=case.get("ast0"))
     out = []
     for i in range(case["pre"]):
         for d in m.frame(h264=False)[0]:
@@ -426,7 +459,9 @@ def expand(case):
         if i % 2 == 0:
             out.append(("pre", m.audio(), None))
     for op in case["ops"]:
-        out.append(("hostile", unhx(op[0]), op[1]))
+        d = unhx(op[0])
+        for _ in range(op[2] if len(op) > 2 else 1):        # [hex, forging, repeat]: a long history of the same feedback
+            out.append(("hostile", d, op[1]))
     post = []
     for i in range(case.get("post", 75)):
         ds, exp, ts = m.frame(h264=False)
@@ -440,26 +475,40 @@ def expand(case):
 
 
 def model_line(case):
-    return "rtpdispatch run " + ",".join(hx(d) for _, d, _ in expand(case))
+    ds = ",".join(hx(d) for _, d, _ in expand(case))
+    rtx0 = case.get("rtx0", RTX0)
+    return f"rtpdispatch run {ds}" if rtx0 == RTX0 else f"rtpdispatch runo {rtx0} {ds}"
 
 
 def run_case(case):
     """-> dict(trace=[...], slow=[(i, ms)], post=[...])"""
     import gc
     gc.collect()
-    w = World()
+    w = World(case.get("rtx0", RTX0))
     trace, slow = [], []
     gc.disable()            # a generation-2 collection would be billed to whichever datagram triggers it
+    hung = False
     try:
-        for i, (kind, d, meta) in enumerate(expand(case)):
+        steps = expand(case)
+        for i, (kind, d, meta) in enumerate(steps):
             ev, ms = w.feed(d)
             if ms > SLOW_MS:
                 # re-measure is impossible (state moved on): report, the oracle decides
                 slow.append((i, round(ms, 1), len(d)))
             trace.append("+".join(ev) if ev else "-")
+            if "EXC hang" in ev:
+                # the watchdog tore the handler down: the rest of the case is not fed
+                hung = True
+                trace.extend(["not-fed"] * (len(steps) - len(trace)))
+                slow = []
+                break
     finally:
         gc.enable()
-        w.close()
+        try:
+            w.close()
+        except Exception:  # noqa: BLE001
+            if not hung:
+                raise
     return {"trace": trace, "slow": slow}
 
 
@@ -776,10 +825,69 @@ def gen_hostile(rng, media):
     return d, is_forging_bye(d), "mutated-valid"
 
 
+def gen_origins(rng, case):
+    """Where the counters under the receive path start: the sender's RTX sequence number (the library draws it itself),
+    and what the peer's media starts from (receiver side: NACK generator, stream statistics, jitter buffer origin,
+    timestamp mapper, abs-send-time of the bitrate estimator) - close to the wrap points and the sign boundaries."""
+    rtx0 = rng.choice([RTX0] * 3 + O.NEAR16 + [65535 - rng.randrange(12), 65535 - rng.randrange(12), rng.randrange(65536)])
+    if rtx0 != RTX0:
+        case["rtx0"] = rtx0
+    if rng.random() < 0.25:
+        case["ast0"] = rng.choice([(1 << 24) - 1 - rng.randrange(40) * AST_STEP, (1 << 24) - 1, 0,
+                                   (1 << 23) - 5 * AST_STEP, rng.randrange(1 << 24)])
+    return case
+
+
+def feedback_datagram(rng):
+    """One WELL-FORMED feedback datagram for the sender / the receivers (cheap: no media has to be encoded)."""
+    k = rng.randrange(9)
+    if k <= 3:      # generic NACK for packets of the history, a few entries
+        ents = [(rng.choice(HISTORY), rng.choice([0, 1, 0x1FF, 0xFFFF, rng.randrange(65536)]))
+                for _ in range(rng.choice([1, 1, 1, 2, 5, 30]))]
+        return rtcp_nack(rng.choice([1, 77, V_SSRC]), S_SSRC, ents)
+    if k == 4:      # PLI / FIR
+        return rtcp_pkt(206, rng.choice([1, 4]), struct.pack("!LL", 1, S_SSRC))
+    if k == 5:      # RR about the sender, counters at their boundaries
+        rep = rtcp_report(S_SSRC, rng.choice([0, 1, 255]), rng.choice([0, 1, 0x7FFFFF, 0x800000, 0xFFFFFF]),
+                          rng.choice([0, 65535, 65536, 0xFFFFFFFF, 0xFFFF0000]), rng.choice([0, 1, 0xFFFFFFFF]),
+                          rng.choice([0, SENDER_LSR]), rng.choice([0, 1, 65536, 0xFFFFFFFF]))
+        return rtcp_pkt(201, 1, struct.pack("!L", 9) + rep)
+    if k == 6:      # SR of the peer's video stream (+ a report about the sender)
+        rep = rtcp_report(S_SSRC, 3, 5, rng.choice([65535, 65536, 0xFFFFFFFF]), 7, SENDER_LSR, 0xFFFFFFFF)
+        return rtcp_sr(V_SSRC, rng.choice([0, 1 << 63, (1 << 64) - 1, 0xFFFFFFFF0000, rng.randrange(1 << 64)]), rep, 1)
+    if k == 7:      # REMB naming the sender
+        return rtcp_remb(1, 1, rng.choice([0, 1, 10, 46, 63]), rng.randrange(1 << 18), [S_SSRC])
+    # NACK flood: 100 entries x 10 packets of the history = 1000 retransmissions for one datagram
+    return rtcp_nack(1, S_SSRC, [(65530, 0xFFFF)] * 100)
+
+
+def gen_long_case(rng, total, full_cycle=False):
+    """A LONG history of well-formed feedback (`total` datagrams; NACK / PLI / FIR / RR / SR / REMB, each repeated many
+    times) against counters that start close to their wrap point.  `full_cycle`: enough retransmissions to take the
+    16-bit RTX sequence number once around from ANY origin."""
+    case = {"pre": rng.choice([0, 1]), "start": [65535 - rng.randrange(6), (1 << 32) - 1 - rng.randrange(9000)],
+            "ops": [], "post": 25}
+    case["rtx0"] = rng.choice([65535 - rng.randrange(0, 40), 65535 - rng.randrange(0, 400), 32767 - rng.randrange(0, 40),
+                               65535, 0, rng.randrange(32768)])
+    left = total
+    if full_cycle:
+        case["rtx0"] = rng.randrange(32768)                 # what random_sequence_number() itself can return
+        case["ops"].append([hx(rtcp_nack(1, S_SSRC, [(65530, 0xFFFF)] * 100)), False, 67])
+        left -= 67
+    while left > 0:
+        d = feedback_datagram(rng)
+        rep = min(left, rng.choice([1, 3, 10, 40, 150]) if len(d) <= 40 else rng.choice([1, 3, 10]) if len(d) < 300 else rng.choice([1, 2, 3]))
+        case["ops"].append([hx(d), False, rep])
+        left -= rep
+    rng.shuffle(case["ops"])
+    return case
+
+
 def gen_case(rng, nmax=24):
     pre = rng.choice([0, 0, 1, 2, 3, 6])
-    start = [rng.choice([0, 100, 65500, 65535, 32760]), rng.choice([0, 4294960000, 123456])]
-    case = {"pre": pre, "start": start, "ops": []}
+    start = [rng.choice([0, 100, 65500, 65535, 32760, 32767, 65535 - rng.randrange(9)]),
+             rng.choice([0, 4294960000, 123456, (1 << 32) - 1, (1 << 31) - 3000])]
+    case = gen_origins(rng, {"pre": pre, "start": start, "ops": []})
     m = Media(*start)
     for i in range(pre):
         m.frame()
@@ -906,7 +1014,14 @@ class RtpWorld(Component):
 
     def cases(self, rng, tier):
         n = self.quick if tier == "quick" else self.thorough
-        return [gen_case(rng) for _ in range(n)]
+        out = [gen_case(rng) for _ in range(n)]
+        # long feedback histories over counters that start next to their wrap point
+        if tier == "quick":
+            out += [gen_long_case(rng, rng.choice([300, 500, 800])) for _ in range(5)]
+        else:
+            out += [gen_long_case(rng, rng.choice([3000, 6000, 12000])) for _ in range(10)]
+            out += [gen_long_case(rng, 2500, full_cycle=True) for _ in range(2)]
+        return out
 
     def model_line(self, case):
         return model_line(case)
@@ -940,9 +1055,19 @@ class RtpWorld(Component):
 
     def shrink(self, case):
         ops = case["ops"]
+        if len(ops) > 8:            # long histories: halves first
+            yield dict(case, ops=ops[:len(ops) // 2])
+            yield dict(case, ops=ops[len(ops) // 2:])
         for i in range(len(ops)):
             if len(ops) > 1:
                 yield dict(case, ops=ops[:i] + ops[i + 1:])
+        for i, op in enumerate(ops):
+            if len(op) > 2 and op[2] > 1:
+                for r in sorted({1, op[2] // 2, op[2] - 1}):
+                    if r < op[2]:
+                        yield dict(case, ops=ops[:i] + [[op[0], op[1], r]] + ops[i + 1:])
+        if case.get("ast0") is not None:
+            yield {k: v for k, v in case.items() if k != "ast0"}
         if case["pre"]:
             yield dict(case, pre=case["pre"] - 1)
         if case.get("post", 75) > 25:
@@ -992,13 +1117,14 @@ class NackGen(Component):
         g.max_seq = case["max"]
         CountingSet.adds = 0
         g.missing = CountingSet(case["missing"])
-        missed = g.add(RtpPacket(sequence_number=case["seq"]))
+        with O.cpu_limit():
+            missed = g.add(RtpPacket(sequence_number=case["seq"]))
         return g, missed, CountingSet.adds
 
     def impl(self, case):
         try:
             g, missed, adds = self._run(case)
-        except Exception as exc:  # noqa: BLE001
+        except (Exception, O.Hang) as exc:  # noqa: BLE001
             return _exc_tag(exc)
         mx = "N" if g.max_seq is None else str(g.max_seq)
         return f"ok {mx} {'.'.join(str(x) for x in sorted(g.missing))} {1 if missed else 0} {adds}"
@@ -1056,10 +1182,14 @@ class ManyStreams(Component):
     theorems = ["still_alive"]
 
     def corpus(self):
-        return [{"n": n} for n in (1, 31, 32, 33, 255, 256, 300)]
+        # "cycles": the extended highest sequence number of every stream starts that far into its 32-bit space (as after
+        # 65535 wraps of the 16-bit sequence number; attribute shifted only if it is still there), then the stream wraps
+        return [{"n": n} for n in (1, 31, 32, 33, 255, 256, 300)] + [{"n": 2, "cycles": 0xFFFF0000}, {"n": 1, "cycles": 0x7FFF0000}]
 
     def cases(self, rng, tier):
-        return [{"n": rng.choice([2, 30, 62, 63, 64, 100, 257, 400])} for _ in range(2 if tier == "quick" else 8)]
+        out = [{"n": rng.choice([2, 30, 62, 63, 64, 100, 257, 400])} for _ in range(2 if tier == "quick" else 8)]
+        out += [{"n": rng.choice([1, 3, 33]), "cycles": rng.choice([0xFFFF0000, 0xFFFE0000, 0x7FFF0000])} for _ in range(1 if tier == "quick" else 4)]
+        return out
 
     def impl(self, case):
         import asyncio
@@ -1069,10 +1199,19 @@ class ManyStreams(Component):
         w = World()
         out = []
         try:
+            cycles = case.get("cycles")
             for i in range(case["n"]):
-                ev, _ = w.feed(rtp_hdr(PT_VP8, i, 0, 100000 + i) + b"\x10abc")
+                ev, _ = w.feed(rtp_hdr(PT_VP8, i if cycles is None else 65535, 0, 100000 + i) + b"\x10abc")
                 if any(x.startswith(("EXC", "STATE")) for x in ev):
                     out.append("feed:" + "+".join(ev))
+            if cycles is not None:
+                _, streams = O.opt_get(w.video, "_RTCRtpReceiver__remote_streams")
+                for st in (streams or {}).values():
+                    O.opt_set(st, "cycles", cycles)
+                for i in range(case["n"]):      # 65535 -> 0: the 16-bit sequence number wraps, `cycles` moves on
+                    ev, _ = w.feed(rtp_hdr(PT_VP8, 0, 3000, 100000 + i) + b"\x10abc")
+                    if any(x.startswith(("EXC", "STATE")) for x in ev):
+                        out.append("feed:" + "+".join(ev))
             sent = []
             w.ice.log = sent
             w.loop.run_until_complete(asyncio.sleep(0.15))
@@ -1119,8 +1258,9 @@ class ManyStreams(Component):
 
     def label(self, case, impl_out):
         n = case["n"]
-        return "<=31" if n <= 31 else "<=255" if n <= 255 else ">=256"
+        return ("<=31" if n <= 31 else "<=255" if n <= 255 else ">=256") + (":cycles" if case.get("cycles") is not None else "")
 
 
 def components(tier):
-    return [RtpWorld(), NackGen(), NackFixEquivalence(), ManyStreams()]
+    from harness import c05history as H
+    return [RtpWorld(), NackGen(), NackFixEquivalence(), ManyStreams(), H.FeedbackHistory()]
